@@ -60,6 +60,12 @@ pub enum Event {
         current_entries: usize,
         current_states: u64,
     },
+    /// at the end of a stream fold: states that the previous/current data records after the next of
+    /// an iteration (results of the fold's last instruction) and that this run left unconsumed
+    FoldAfterStatesUnconsumed {
+        fold_id: u32,
+        states: u64,
+    },
     /// the same unclaimed iterations split by cause: their stream value was replayed in this run but
     /// not iterated ("unvisited"); the state of their stream value has not been reached by this run
     /// yet ("unreplayed"); that state was consumed but no position mapping leads to it ("lost mapping")
